@@ -741,8 +741,11 @@ class Verifier:
             while pending:
                 trace = pending.pop()
                 npaths += 1
-                if npaths > 400:
-                    rep.errors.append("path explosion")
+                if npaths > 250:
+                    rep.errors.append("path explosion (more than 250 paths)")
+                    break
+                if time.time() - t0 > float(os.environ.get("PYVC_FN_BUDGET_S", "180")):
+                    rep.errors.append("time budget for one function exceeded after %d paths" % npaths)
                     break
                 self.run_path(rep, c, finfo, case, ci, trace, pending, canaries)
         rep.time = time.time() - t0
